@@ -22,17 +22,17 @@ def get_tu():
 
 
 def build_c(run):
-    tu = get_tu()
-    K.verify(run, ID, tu, CT.TrxCtrlCmd)
-    for em in CT.EMITTERS + [CT.EmitSetslot, CT.EmitSetfh]:
-        K.verify(run, ID, tu, em)
-    K.verify(run, ID, tu, CT.CtrlAccept)
-    format_lemma(run)
+    def one(con):
+        tu = get_tu()
+        K.verify(run, ID, tu, con)
+        run.extra["verbatim_extraction"] = tu.extraction
+    for con in [CT.TrxCtrlCmd] + list(CT.EMITTERS) + [CT.EmitSetslot, CT.EmitSetfh, CT.CtrlAccept]:
+        K.sect(run, getattr(con, "name", None) or getattr(con, "__name__", str(con)), one, con)
+    K.sect(run, "format_lemma", format_lemma, run)
     run.assume("sscanf applied to the decimal numeral the assumed response format places at that offset yields its value (\"%d\" -> status, "
                "\"%u %d\" at offset 14 -> kHz, dBm); the response format itself is the Python side's proved post-condition (C05 handle_rx/send_response)")
     run.assume("list of pending commands of length one in the acceptance proof (the next command's transmission is covered by trx_ctrl_cmd/trx_ctrl_send)")
     run.assume("prelude enum gsm_phys_chan_config / _GSM_PCHAN_MAX = 12 as in current libosmocore (the bundled header lacks the *_CBCH values)")
-    run.extra["verbatim_extraction"] = tu.extraction
     K.finish(run)
 
 
@@ -242,7 +242,7 @@ def replay_c(payload):
     w = payload["inputs"]
     func, clause = w.get("func"), payload.get("clause") or w.get("clause") or ""
     if func == "lemma":
-        return {"confirmed": False, "observed": "spec-level lemma", "expected": "n/a"}
+        return {"confirmed": False, "error": "spec-level lemma: there is no native run that could refute or confirm it", "observed": "spec-level lemma", "expected": "n/a"}
     with R.Harness(harness(), harness_flags()) as h:
         if func == "trx_if_cmd_setfh":
             n = max(min(w.get("ma_len", 64), 200), 0)
@@ -281,7 +281,7 @@ def replay_c(payload):
                         return {"confirmed": True, "found_by": "search (the model's octets violate the assumed format; %d well-formed inputs tried)" % tried,
                                 "observed": obs2, "expected": e2, "differs": bad2,
                                 "inputs_used": {"cmd": cmd2.decode("latin1"), "dgram": d2.decode("latin1"), "critical": crit2}, "cmd": h.cmd}
-                return {"confirmed": False, "observed": "model input outside the pre-condition (format of command/response); %d well-formed inputs ran as specified" % tried,
+                return {"confirmed": False, "error": "counter-model not executed: its command/response text is outside the pre-condition", "observed": "model input outside the pre-condition (format of command/response); %d well-formed inputs ran as specified" % tried,
                         "expected": "n/a", "precondition_met_by_model_input": False}
             bad, obs = run_accept(h, cmd, d, crit, exp)
             return {"confirmed": bool(bad), "found_by": found_by, "observed": obs, "expected": exp, "differs": bad, "precondition_met_by_model_input": True,
@@ -299,7 +299,7 @@ def replay_c(payload):
                                                            "sanitizer": r.get("sanitizer")}
             return {"confirmed": bool(bad), "observed": {"stdout": so[:300]}, "expected": "CMD %s queued and sent" % verb, "differs": bad, "cmd": h.cmd}
         if func == "trx_ctrl_cmd":
-            return {"confirmed": False, "observed": "no standalone native replay for trx_ctrl_cmd (exercised through the emitters)", "expected": "n/a"}
+            return {"confirmed": False, "error": "no standalone native replay for trx_ctrl_cmd (exercised through the emitters)", "expected": "n/a"}
     return {"confirmed": False, "error": "no replay for %r" % func}
 
 
